@@ -246,6 +246,8 @@ def case_line(c):
         return "WRAP %s %s %d" % (c[1], c[2], c[3])
     if c[0] == "KEY":
         return "KEY " + c[1]
+    if c[0] == "FSIZE":
+        return "FSIZE %s %s %s" % (c[1], c[2], c[3])
     return repr(c)
 
 
@@ -265,6 +267,9 @@ def parse_case(l):
         return ("WRAP", g[0], g[1], int(g[2]))
     if f[0] == "KEY":
         return ("KEY", f[1])
+    if f[0] == "FSIZE":
+        g = f[1].split()
+        return ("FSIZE", g[0], g[1], g[2])
     raise ValueError("unknown case line " + l[:40])
 
 
@@ -307,6 +312,43 @@ def snap(p):
     if stat.S_ISREG(st.st_mode):
         return ("reg", stat.S_IMODE(st.st_mode), st.st_ino, st.st_nlink, open(p, "rb").read())
     return ("other", stat.S_IMODE(st.st_mode), st.st_ino, st.st_nlink, None)
+
+
+def do_fsize(rn, c):
+    """the key write completes only partially (file-size limit below the key size, SIGXFSZ ignored or default): mungekey may
+    fail, but it may not report success unless the key file has exactly the requested size"""
+    bits, lim, ign = int(c[1]), int(c[2]), c[3] == "1"
+    d = rn.fresh()
+    p = os.path.join(d, "k")
+
+    def pre():
+        import resource, signal as _sg
+        resource.setrlimit(resource.RLIMIT_FSIZE, (lim, lim))
+        if ign:
+            _sg.signal(_sg.SIGXFSZ, _sg.SIG_IGN)
+    e = dict(os.environ); e.update(SAN_ENV)
+    # sanitizer logs would hit the same file-size limit: keep them on stderr
+    e["ASAN_OPTIONS"] = "detect_leaks=0:exitcode=99"
+    try:
+        r = subprocess.run([rn.mk, "--keyfile=" + p, "--bits=%d" % bits], capture_output=True, text=True, timeout=60, env=e,
+                           preexec_fn=pre, errors="replace")
+        rc, err = r.returncode, r.stderr[-400:]
+    except subprocess.TimeoutExpired:
+        rc, err = 124, "timeout"
+    s = snap(p)
+    size = len(s[4]) if s and s[4] is not None else None
+    obs = {"rc": rc, "size": size, "limit": lim, "stderr": err[-200:]}
+    shutil.rmtree(d, True)
+    want = (bits + 7) // 8
+    why = None
+    if rc == 0 and size != want:
+        why = ("mungekey reports success for --bits=%d although the key file holds %s bytes, not %d (write cut short by a %d-byte "
+               "file-size limit)" % (bits, size, want, lim))
+    elif rc == 124:
+        why = "mungekey hangs when the key write is cut short"
+    elif lim >= want and rc != 0 and not san_abort(rc, err):
+        why = "mungekey fails although the file-size limit (%d) admits the %d-byte key: %s" % (lim, want, err[-100:])
+    return obs, why, None
 
 
 def san_abort(rc, err):
@@ -582,7 +624,9 @@ def run(ctx):
 
     # ---- cases ----
     hcases = gen_hkdf(ctx)
-    pcases = gen_bits(ctx) + gen_umask(ctx) + gen_exist(ctx) + gen_wrap(ctx)
+    fsize = [("FSIZE", str(b), str(l), i) for (b, l) in ((256, 0), (256, 31), (256, 32), (1024, 100), (1024, 127), (1024, 128), (2000, 249),
+                                                        (8192, 1), (8192, 1000), (8192, 1023), (8192, 1024), (4096, 511)) for i in ("0", "1")]
+    pcases = gen_bits(ctx) + gen_umask(ctx) + gen_exist(ctx) + gen_wrap(ctx) + fsize
     kcases, kpairs = gen_keys(ctx)
     if ctx.replay:
         r = json.load(open(ctx.replay))
@@ -630,6 +674,8 @@ def run(ctx):
             return do_umask(rn, c, facts.get("key_len_dfl_bytes"))
         if c[0] == "EXIST":
             return do_exist(rn, c)
+        if c[0] == "FSIZE":
+            return do_fsize(rn, c)
         return do_wrap(rn, c, facts)
     if pcases:
         with ThreadPoolExecutor(8) as ex:
